@@ -64,13 +64,11 @@ Definition first_some (l : list (option N)) : option N :=
 Definition run_rotor_slice (id : N) (stakes : list N) (fa1 : bool) (sub0 : N) (sl : N * N * list rquery) : list (N * N * N) :=
   let '(slot, slice, qs) := sl in
   let n := lenN stakes in
-  (* the model's committee for this slice (Rotor::new) / its deterministic part (Rotor::new_fa1) *)
-  let committee := if fa1 then None
-                   else match rotor_new stakes with
-                        | COk sm => match rotor_relays (stdrng rotor_blocks) sm slot slice with Ok q _ => Some q | _ => None end
-                        | _ => None
-                        end in
-  let pre := if fa1 then fa1_prepare stakes TOTAL_SHREDS else None in
+  (* the model's committee for this slice, both constructors *)
+  let committee := match (if fa1 then rotor_new_fa1 stakes else rotor_new stakes) with
+                   | COk sm => match rotor_relays (stdrng rotor_blocks) sm slot slice with Ok q _ => Some q | _ => None end
+                   | _ => None
+                   end in
   flat_map (fun '(shred, seen) =>
     let agree := all_equal seen in
     let defined := forallb (fun o => match o with Some v => v <? n | None => false end) seen in
@@ -78,18 +76,10 @@ Definition run_rotor_slice (id : N) (stakes : list N) (fa1 : bool) (sub0 : N) (s
       match first_some seen with
       | None => false
       | Some r =>
-        if fa1 then
-          match pre with
-          | Some p => match nth_error (f1_required p) (N.to_nat shred) with
-                      | Some v => negb (v =? r)                               (* pre-allocated seat *)
-                      | None => nthN (f1_weights p) r 0 =? 0                  (* fallback seat: positive residual *)
-                      end
-          | None => true
-          end
-        else match committee with
-             | Some q => match nth_error q (N.to_nat shred) with Some v => negb (v =? r) | None => true end
-             | None => true
-             end
+        match committee with
+        | Some q => match nth_error q (N.to_nat shred) with Some v => negb (v =? r) | None => true end
+        | None => true
+        end
       end in
     emit id (sub0 + shred) mism (negb agree || negb defined)) qs.
 
@@ -178,7 +168,7 @@ Definition run_c16 (c : c16case) : list (N * N * N) :=
     out id 0 (flagN (negb (replay_calls calls (stdrng 16 seed))) 1)
   | C16Rotor id stakes fa1 ctor_panicked slices =>
     let any_panic := existsb (fun b => b) ctor_panicked in
-    let model_panics := match (if fa1 then rotor_new_fa1 stakes (map fst (indexed 0 stakes)) else rotor_new stakes) with
+    let model_panics := match (if fa1 then rotor_new_fa1 stakes else rotor_new stakes) with
                         | COk _ => false | _ => true end in
     emit id 0 (negb (Bool.eqb any_panic model_panics)) (any_panic && positive_set stakes)
     ++ run_rotor_slices id stakes fa1 1 slices
